@@ -19,6 +19,10 @@ pub struct Case {
     pub inside_next: bool,
     /// restarts: the same again on the rebuilt node (second history + crash)
     pub second: Option<Box<Case>>,
+    /// (root case only) this many further keyspaces `extra<i>` hold one entry each before the history starts: a node with
+    /// many keyspaces to rebuild (round 11: sizes and counts were a blind spot; a loader that works in batches or in parallel is
+    /// crossed here)
+    pub extra_keyspaces: usize,
 }
 
 pub struct C07;
@@ -29,7 +33,7 @@ fn gen_case(src: &mut Src, g: &mut ReqGen, depth: usize) -> Case {
     let inside_next = src.chance(2, 5);
     let crash_after = if inside_next { src.below(n) } else { 1 + src.below(n) };
     let second = if depth == 0 && src.chance(1, 4) { Some(Box::new(gen_case(src, g, 1))) } else { None };
-    Case { reqs, crash_after, inside_next, second }
+    Case { reqs, crash_after, inside_next, second, extra_keyspaces: 0 }
 }
 
 impl Prop for C07 {
@@ -50,7 +54,11 @@ impl Prop for C07 {
     fn gen(&self, src: &mut Src) -> Case {
         let mut g = ReqGen::new(src);
         g.n_ks = 1 + src.below(3);
-        gen_case(src, &mut g, 0)
+        let mut case = gen_case(src, &mut g, 0);
+        if src.chance(1, 12) {
+            case.extra_keyspaces = *src.pick(&[7usize, 8, 9, 17, 33, 100]);
+        }
+        case
     }
 
     fn run(&self, case: &Case) -> Outcome {
@@ -67,6 +75,7 @@ impl Prop for C07 {
                 }).collect::<Vec<_>>(),
                 "crash_after_completed_requests": case.crash_after,
                 "crash_inside_next_request": case.inside_next,
+                "further_keyspaces_with_one_entry_each": case.extra_keyspaces,
                 "then": case.second.as_ref().map(|c| d(c)),
             })
         }
@@ -97,6 +106,18 @@ async fn run(case: &Case) -> Outcome {
     let mut handle = store.clone();
     let mut first = true;
     let mut group = e2::new_group(handle.clone(), 9).await;
+    // further keyspaces, one entry each (a tombstone in every third)
+    let extra_stamp = |i: usize| Stamp { secs: 59_000_000 + i as u64, frac: 0, counter: 0, node: 3 };
+    for i in 0..case.extra_keyspaces {
+        let m = group.get_or_create_keyspace(&format!("extra{i}")).await;
+        let _ = m.send(e2::msg_set(0, e2::doc(i as u64 + 1, extra_stamp(i), 3))).await;
+        if i % 3 == 2 {
+            let _ = m.send(e2::msg_del(0, e2::meta(i as u64 + 1, Stamp { counter: 1, ..extra_stamp(i) }))).await;
+        }
+    }
+    if case.extra_keyspaces > 0 {
+        labels.push("many_keyspaces");
+    }
     while let Some(c) = cur {
         if !first {
             labels.push("second_crash");
@@ -121,6 +142,26 @@ async fn run(case: &Case) -> Outcome {
             message: format!("load_states_from_storage failed: {e}"),
         })?;
         let listed = handle.keyspace_names();
+        for i in 0..case.extra_keyspaces {
+            let name = format!("extra{i}");
+            let rebuilt = actor_view(&new_group, &name).await;
+            let st = store_view(&handle, &name);
+            let mut want = SetView::default();
+            if i % 3 == 2 {
+                want.dead.insert(i as u64 + 1, Stamp { counter: 1, ..extra_stamp(i) });
+            } else {
+                want.live.insert(i as u64 + 1, extra_stamp(i));
+            }
+            ensure!(
+                rebuilt == st && rebuilt == want,
+                "rebuilt-differs-from-storage",
+                "keyspace {name} (one of {} further keyspaces): rebuilt set {:?}, storage holds {:?}, written before the history {:?}",
+                case.extra_keyspaces,
+                rebuilt,
+                st,
+                want
+            );
+        }
         for k in 0..MAX_KS {
             let name = ks_name(k);
             let rebuilt = actor_view(&new_group, &name).await;
